@@ -5,6 +5,8 @@
 //! `InflightRequest { tid, to, sent_at }`.
 //! Stand-ins: `tracing`.
 use super::*;
+#[allow(unused_imports)]
+use crate::verif_env::k as kani;
 use crate::common::{Id, PingResponseArguments};
 use crate::verif_env::clock;
 
